@@ -4,7 +4,7 @@
    Codes: 0 ok, 1 implementation differs from the model, 2 the reported
    description is not an exact description of the schema (Spec). *)
 From Coq Require Import List NArith ZArith Bool String.
-From GQL Require Export Base.Bytes Types.Schema Types.Consistent Types.Introspection.
+From GQL Require Export Base.Bytes Types.Schema Types.Consistent Types.Literal Types.Introspection.
 Import ListNotations.
 Open Scope N_scope.
 
